@@ -144,9 +144,8 @@ def rule_hashable_writers(model: Model, rule_id: str = 'C06-R6') -> RuleResult:
         cfg = cfg_of(model, f)
         nz = Normalizer(model, f, cfg)
         r.analysed.add(q)
-        for n in cfg.live_nodes():
-            if n.kind != 'return' or n.ast is None or n.ast.value is None:
-                continue
+        from ..cfg import returned_values
+        for (val_e, n) in returned_values(cfg):
             if cond is not None:
                 dom = False
                 for a in cfg.nodes:
@@ -157,12 +156,12 @@ def rule_hashable_writers(model: Model, rule_id: str = 'C06-R6') -> RuleResult:
                 if not dom:
                     continue
             r.instances += 1
-            form = nz.expr(n.ast.value, n)
+            form = nz.expr(val_e, n)
             r.sample({q: form[:80]})
             if form.startswith('tuple('):
                 r.ok()
             else:
-                r.fail(q, f"returns {form[:80]}", f.loc(n.ast),
+                r.fail(q, f"returns {form[:80]}", f.loc(val_e),
                        "a fixed tuple is written as an unhashable container: a Dict[Tuple[...], V] value can no longer be serialised "
                        "(its keys are not hashable), so convert(x, T) fails on a valid x")
     return r
